@@ -944,7 +944,8 @@ public:
                const char * t = s;
                while(1)  // we'll handle the NUL char in the if statement below
                {
-                  if (((*t == '\0')||(muscleIsSpace(*t)))||(GetMatchingToken(t, numCharsInToken) >= 0))
+                  // (a keyword that starts with a letter ends a user-string only at the start of a word, so that eg "eyecolor " isn't split at "or ")
+                  if (((*t == '\0')||(muscleIsSpace(*t)))||((muscleIsAlpha(*t) == 0)&&(GetMatchingToken(t, numCharsInToken) >= 0)))
                   {
                      retTok   = LexerToken(String(s, (uint32) (t-s)), false);
                      _curPos += retTok.GetValueString().Length();
